@@ -267,7 +267,7 @@ func init() {
 	reg("github.com/ethereum/go-ethereum/crypto.Ecrecover", func(e *Exec, fv *FuncV, args []Value, cc *ssa.CallCommon) (Value, bool) {
 		h, s := e.bytesCode(args[0]), e.bytesCode(args[1])
 		okv := e.C.App("ecrecover_ok!", BoolSort, h, s)
-		if s.Op == "uf" && s.Name == "sign!" {
+		if s.Op == "uf" && strings.HasPrefix(s.Name, "sign!") {
 			e.Assume(e.C.Implies(e.C.Eq(s.Args[0], h), okv))
 		}
 		if e.Branch(okv) {
